@@ -11,6 +11,8 @@ same text with the entry reader as a parameter, `expandBlocks_is_expandWith`) ch
 * `spectral_radius_bound_expanded`: every eigenvalue of `expand A` has `‖λ‖ ≤ spectral_radius<false>(A, 0)`,
 * `spectral_radius_bound_expanded_scaled`: every eigenvalue of `expand(blockdiag(inv a_II)) · expand A` has
   `‖λ‖ ≤ spectral_radius<true>(A, 0) = max_I (Σ_J ‖a_IJ‖_F) · ‖inv a_II‖_F`,
+* `spectral_radius_bound_expanded_pencil`: when `inv` inverts the diagonal blocks, every `λ` with
+  `expand(A) v = λ · expand(blockdiag(a_II)) v` (eigenvalue of `D⁻¹A`) obeys the same bound,
 
 for `b × b` blocks over `ℝ` or `ℂ` (`RCLike`), `math::norm` of a block being the Frobenius norm
 (value_type/static_matrix.hpp `norm_impl`: `sqrt(norm(Σ_i x(i) * adjoint(x(i))))`; `frobenius_is_code_norm`).  The vector norm
@@ -102,6 +104,36 @@ theorem spectral_radius_bound_expanded_scaled (inv : Matrix (Fin b) (Fin b) 𝕜
   rw [KX.blockDiag_row _ _ I hI, heig _ (hlt p)] at h
   simpa [KV.blockRowDot, KX.chunk] using h.symm
 
+
+/-- **… as eigenvalues of the pencil `(A, D)`**: when `inv` really inverts the diagonal blocks (`inv (dia I) * dia I = 1`, what
+`math::inverse` returns for a non-singular block), every `λ` with `expand(A) v = λ · expand(blockdiag(dia)) v`, `v ≠ 0` — i.e. every
+eigenvalue of `D⁻¹A` on the expanded scalar matrices — satisfies `‖λ‖ ≤ spectral_radius<true>(A, 0)` -/
+theorem spectral_radius_bound_expanded_pencil (inv : Matrix (Fin b) (Fin b) 𝕜 → Matrix (Fin b) (Fin b) 𝕜)
+    (A : CRS (Matrix (Fin b) (Fin b) 𝕜)) (hA : A.WF) (hsq : A.ncols = A.nrows)
+    (dia : Nat → Matrix (Fin b) (Fin b) 𝕜)
+    (hdiag1 : ∀ I, I < A.nrows → ((A.row I).filter (fun cv => decide (cv.1 = I))).length = 1 ∧ (I, dia I) ∈ A.row I)
+    (hinv : ∀ I, I < A.nrows → inv (dia I) * dia I = 1)
+    (v : Nat → 𝕜) (lam : 𝕜) (hv : ∃ r, r < A.nrows * b ∧ v r ≠ 0)
+    (heig : ∀ r, r < A.nrows * b →
+      KX.scalarRowDot ((KX.expandWith KX.entry b A).row r) v
+        = lam * KX.scalarRowDot ((KX.expandWith KX.entry b (KX.blockDiag A.nrows dia)).row r) v) :
+    ‖lam‖ ≤ gershgorinV (fun a : Matrix (Fin b) (Fin b) 𝕜 => ‖a‖) inv 1 true A := by
+  refine C08c.block_gershgorin_scaled_bound (E := Matrix (Fin b) (Fin b) 𝕜) inv 1 A hA hsq dia hdiag1 (KX.chunk b v) lam
+    (chunk_ne_zero A.nrows v hv) (fun I hI => ?_)
+  have hn : (KX.blockDiag A.nrows dia).nrows = A.nrows := by simp [KX.blockDiag, CRS.nrows]
+  have hlt : ∀ p : Fin b, I * b + p.val < A.nrows * b := fun p => by
+    calc I * b + p.val < I * b + b := Nat.add_lt_add_left p.isLt _
+      _ = (I + 1) * b := by rw [Nat.succ_mul]
+      _ ≤ A.nrows * b := Nat.mul_le_mul_right _ hI
+  have hAx : KV.blockRowDot (V := Matrix (Fin b) (Fin b) 𝕜) (E := Matrix (Fin b) (Fin b) 𝕜) (A.row I) (KX.chunk b v)
+      = lam • (dia I * KX.chunk b v I) := by
+    ext p c
+    have hD := KX.expand_rowDot (KX.blockDiag A.nrows dia) v I (by rw [hn]; exact hI) p c
+    rw [KX.blockDiag_row _ _ I hI] at hD
+    rw [← KX.expand_rowDot A v I hI p c, heig _ (hlt p), hD]
+    simp [KV.blockRowDot]
+  rw [hAx, smul_eq_mul, Matrix.mul_smul, ← Matrix.mul_assoc, hinv I hI, Matrix.one_mul]
+
 end
 
 /-! ## non-vacuity: `[[D, B], [0, D]]`, `D = [[1,1],[0,1]]`, `B = [[0,0],[1,0]]` (non-commuting, first row stored out of
@@ -150,6 +182,23 @@ example : ‖(1 : ℝ)‖ ≤ gershgorinV (fun a : Matrix (Fin 2) (Fin 2) ℝ =>
     rw [hw]
     interval_cases r <;>
       simp [KX.expandWith, KX.blockDiag, KX.scalarRowDot, KX.entry, CRS.row, CRS.nrows, exA, exDinv, exV, List.range,
+        List.range.loop]
+
+
+-- the pencil form: `expand(A) e₀ = e₀ = 1 · expand(blockdiag(D, D)) e₀`
+example : ‖(1 : ℝ)‖ ≤ gershgorinV (fun a : Matrix (Fin 2) (Fin 2) ℝ => ‖a‖) (fun _ => exDinv) 1 true exA := by
+  refine spectral_radius_bound_expanded_pencil (fun _ => exDinv) exA exA_wf rfl (fun _ => exD) ?_ (fun _ _ => exDinv_mul) exV 1
+    ⟨0, by decide, by simp [exV]⟩ ?_
+  · intro i hi
+    have : i = 0 ∨ i = 1 := by
+      have : i < 2 := hi
+      omega
+    rcases this with rfl | rfl <;> simp [exA, CRS.row]
+  · intro r hr
+    have hr4 : r < 4 := hr
+    rw [exA_expand_eig r hr]
+    interval_cases r <;>
+      simp [KX.expandWith, KX.blockDiag, KX.scalarRowDot, KX.entry, CRS.row, CRS.nrows, exA, exD, exV, List.range,
         List.range.loop]
 
 end nonvacuity
